@@ -2,7 +2,9 @@ package kafka
 
 import (
 	"context"
+	"errors"
 	"io"
+	"net"
 	"time"
 )
 
@@ -44,13 +46,19 @@ func (b *vhClosingBalancer) Balance(msg Message, partitions ...int) int {
 	return 0
 }
 
-func VH_C09_WriterCloseRace(n, when int) {
+func VH_C09_WriterCloseRace(n, when, prior int) {
 	vhConcreteClock(true)
-	tr := &vhTransport{partitions: 1, fixed: []int{vhAcked, vhAcked, vhAcked, vhAcked}}
+	tr := &vhTransport{partitions: 1, fixed: []int{vhAcked, vhAcked, vhAcked, vhAcked, vhAcked, vhAcked}}
 	comp := &vhCompletion{}
 	w := &Writer{Addr: TCP("vh:9092"), Topic: "t", MaxAttempts: 1, BatchSize: 1, BatchTimeout: 10 * time.Millisecond, Transport: tr, Completion: comp.fn, RequiredAcks: RequireAll}
-	bal := &vhClosingBalancer{w: w, done: make(chan struct{}), when: when}
+	bal := &vhClosingBalancer{w: w, done: make(chan struct{}), when: when + prior}
 	w.Balancer = bal
+	// the writer may already have been used successfully (its partition writer map exists)
+	for i := 0; i < prior; i++ {
+		perr := w.WriteMessages(context.Background(), Message{Value: []byte{byte(100 + i)}})
+		vhAssert(perr == nil, "prior-write-succeeds")
+	}
+	comp.ids, comp.errs, comp.calls = nil, nil, 0
 	msgs := make([]Message, n)
 	for i := range msgs {
 		msgs[i] = Message{Value: []byte{byte(i + 1)}}
@@ -76,4 +84,41 @@ func VH_C09_WriterCloseRace(n, when int) {
 	}
 	err2 := w.WriteMessages(context.Background(), Message{Value: []byte{9}})
 	vhAssert(err2 == io.ErrClosedPipe, "write-after-close-is-ErrClosedPipe")
+}
+
+// H2: a WriteMessages call blocked in the metadata round trip returns promptly with the context's error when its
+// context ends (the fake transport answers only when the context it was given is done).
+type vhBlockingTransport struct{ calls int }
+
+func (t *vhBlockingTransport) RoundTrip(ctx context.Context, addr net.Addr, req Request) (Response, error) {
+	t.calls++
+	<-ctx.Done()
+	return nil, ctx.Err()
+}
+
+func VH_C09_WriterCancel() {
+	vhConcreteClock(true)
+	tr := &vhBlockingTransport{}
+	w := &Writer{Addr: TCP("vh:9092"), Topic: "t", Transport: tr, RequiredAcks: RequireAll}
+	ctx, cancel := context.WithCancel(context.Background())
+	var werr error
+	done := make(chan struct{})
+	go func() {
+		werr = w.WriteMessages(ctx, Message{Value: []byte{1}})
+		close(done)
+	}()
+	if vhIsSymbolic() {
+		vhRun(vhSpawned())
+	} else {
+		time.Sleep(20 * time.Millisecond)
+	}
+	vhAssert(tr.calls == 1, "blocked-in-the-round-trip")
+	cancel()
+	select {
+	case <-done:
+	case <-time.After(500 * time.Millisecond):
+		vhFail("blocked-write-returns-when-its-context-ends")
+	}
+	vhAssert(errors.Is(werr, context.Canceled), "returns-the-contexts-error")
+	vhReach("c09-cancel")
 }
